@@ -19,6 +19,7 @@ Record tschema := {
   ts_entities : list (str * tentity);
   ts_enums : list str;
   ts_actions : list uid;
+  ts_agraph : list (uid * list uid);       (* every declared action with its DIRECT parents (action groups), as the resolved schema lists them *)
 }.
 Record tenv := { tv_principal : str; tv_action : uid; tv_resource : str; tv_context : list (str * (cty * bool)) }.
 
@@ -192,14 +193,46 @@ Section Check.
          end) (match entity_of child with Some e => te_parents e | None => [] end) (child :: visited)
     end.
   Definition is_descendant_ty (child anc : str) : bool := fst (desc (S (List.length (ts_entities sch))) child anc []).
-  Definition any_descendant (l r : list str) : bool :=
-    existsb (fun lt => existsb (fun rt => str_eqb lt rt || is_descendant_ty lt rt) r) l.
-
   Definition is_action_type (et : str) : bool :=
     str_eqb et (s_of "Action") ||
     (let suffix := s_of "::Action" in
      let n := List.length et in let m := List.length suffix in
      Nat.leb m n && str_eqb (skipn (n - m) et) suffix).
+
+  (* isActionTypeDescendant: some action of entity type [child] is, transitively, a member of a group of entity type [anc] (groups may
+     live in another namespace, so their entity type can differ).  One visited set for the whole search, as in the Go code. *)
+  Definition umem (u : uid) (l : list uid) : bool := existsb (uid_eqb u) l.
+  Definition aparents (u : uid) : option (list uid) :=
+    (fix go (l : list (uid * list uid)) : option (list uid) :=
+       match l with [] => None | (a, ps) :: r => if uid_eqb a u then Some ps else go r end) (ts_agraph sch).
+  Fixpoint awalk (fuel : nat) (u : uid) (anc : str) (visited : list uid) : bool * list uid :=
+    match fuel with
+    | O => (false, visited)
+    | S f =>
+      if umem u visited then (false, visited) else
+      match aparents u with
+      | None => (false, u :: visited)
+      | Some ps =>
+        (fix go (ps : list uid) (vis : list uid) : bool * list uid :=
+           match ps with
+           | [] => (false, vis)
+           | p :: r => if str_eqb (fst p) anc then (true, vis)
+                       else let '(b, v) := awalk f p anc vis in if b then (true, v) else go r v
+           end) ps (u :: visited)
+      end
+    end.
+  Definition is_action_ty_desc (child anc : str) : bool :=
+    is_action_type child && is_action_type anc &&
+    fst ((fix go (l : list (uid * list uid)) (vis : list uid) : bool * list uid :=
+            match l with
+            | [] => (false, vis)
+            | (a, _) :: r => if str_eqb (fst a) child
+                             then let '(b, v) := awalk (S (List.length (ts_agraph sch))) a anc vis in if b then (true, v) else go r v
+                             else go r vis
+            end) (ts_agraph sch) []).
+
+  Definition any_descendant (l r : list str) : bool :=
+    existsb (fun lt => existsb (fun rt => str_eqb lt rt || is_descendant_ty lt rt || is_action_ty_desc lt rt) r) l.
 
   (* typeOfEntityUID: None = error *)
   Definition type_of_uid (u : uid) : option cty :=
